@@ -2107,12 +2107,191 @@ def _unroll_constant_comprehensions(prog, known):
                             b.value = ast.fix_missing_locations(ast.copy_location(new, b.value))
 
 
+def fold_generated_tables(prog):
+    """Module-level tables that are *computed* when the module is loaded - a dict comprehension over `range(..)` / `zip(..)` / a literal
+    sequence, followed by `TABLE.update({..})` or `TABLE[k] = v` statements - are written out as the literal display they build, entry
+    by entry: `str(14)` is '14', `f'modp{2048}'` is 'modp2048', `TABLE['14']` is the entry built before, `Transform.DhId(14)` is the member
+    with that value.  What cannot be folded is left as it is (the rules that read the table then say so).  Returns the names folded."""
+    done = []
+
+    def enum_member(func, value, module):
+        chain = ast.unparse(func).split('.')
+        for c in prog.classes.values():
+            if c.qual.split('.')[-len(chain):] == chain or c.qual.endswith('.' + '.'.join(chain)):
+                try:
+                    members = prog.enum_members(c.qual)
+                except Exception:
+                    continue
+                names = [k for k, v in members.items() if v == value]
+                if len(names) == 1:
+                    return ast.Attribute(value=copy.deepcopy(func), attr=names[0], ctx=ast.Load())
+        return None
+
+    def fold(e, tables, module):
+        class F(ast.NodeTransformer):
+            def visit_Call(s_, node):
+                s_.generic_visit(node)
+                if isinstance(node.func, ast.Name) and node.func.id == 'str' and len(node.args) == 1 and not node.keywords \
+                        and isinstance(node.args[0], ast.Constant) and isinstance(node.args[0].value, int):
+                    return ast.copy_location(ast.Constant(value=str(node.args[0].value)), node)
+                if isinstance(node.func, ast.Attribute) and len(node.args) == 1 and not node.keywords and isinstance(node.args[0], ast.Constant) \
+                        and isinstance(node.args[0].value, int) and not isinstance(node.args[0].value, bool):
+                    m_ = enum_member(node.func, node.args[0].value, module)
+                    if m_ is not None:
+                        return ast.copy_location(m_, node)
+                return node
+
+            def visit_JoinedStr(s_, node):
+                s_.generic_visit(node)
+                if all(isinstance(v, ast.Constant) or (isinstance(v, ast.FormattedValue) and isinstance(v.value, ast.Constant)
+                                                      and v.conversion == -1 and v.format_spec is None) for v in node.values):
+                    return ast.copy_location(ast.Constant(value=''.join(str(v.value if isinstance(v, ast.Constant) else v.value.value) for v in node.values)), node)
+                return node
+
+            def visit_Subscript(s_, node):
+                s_.generic_visit(node)
+                if isinstance(node.value, ast.Name) and node.value.id in tables and isinstance(node.slice, ast.Constant) and isinstance(node.ctx, ast.Load):
+                    d = tables[node.value.id]
+                    for k, v in zip(d.keys, d.values):
+                        if isinstance(k, ast.Constant) and k.value == node.slice.value:
+                            return copy.deepcopy(v)
+                return node
+        return F().visit(e)
+
+    def elements(it):
+        if isinstance(it, (ast.Tuple, ast.List)):
+            return list(it.elts)
+        if isinstance(it, ast.Call) and isinstance(it.func, ast.Name) and it.func.id == 'range' and not it.keywords and 1 <= len(it.args) <= 3:
+            try:
+                vals = [prog.const_eval(a, None) if not isinstance(a, ast.Constant) else a.value for a in it.args]
+            except Exception:
+                return None
+            if all(isinstance(v, int) for v in vals) and len(range(*vals)) <= 64:
+                return [ast.Constant(value=v) for v in range(*vals)]
+            return None
+        if isinstance(it, ast.Call) and isinstance(it.func, ast.Name) and it.func.id == 'zip' and not it.keywords and it.args:
+            cols = [elements(a) for a in it.args]
+            if any(c is None for c in cols):
+                return None
+            return [ast.Tuple(elts=list(row), ctx=ast.Load()) for row in zip(*cols)]
+        if isinstance(it, ast.Call) and isinstance(it.func, ast.Name) and it.func.id == 'enumerate' and len(it.args) == 1 and not it.keywords:
+            col = elements(it.args[0])
+            return None if col is None else [ast.Tuple(elts=[ast.Constant(value=i), x], ctx=ast.Load()) for i, x in enumerate(col)]
+        return None
+
+    def bind(target, el):
+        if isinstance(target, ast.Name):
+            return {target.id: el}
+        if isinstance(target, ast.Tuple) and isinstance(el, ast.Tuple) and len(target.elts) == len(el.elts):
+            out = {}
+            for t, x in zip(target.elts, el.elts):
+                b = bind(t, x)
+                if b is None:
+                    return None
+                out.update(b)
+            return out
+        return None
+
+    def as_display(e, tables, module):
+        """ast.Dict with constant keys for a dict display / comprehension, else None"""
+        if isinstance(e, ast.Dict) and all(k is not None for k in e.keys):
+            d = ast.Dict(keys=[fold(copy.deepcopy(k), tables, module) for k in e.keys], values=[fold(copy.deepcopy(v), tables, module) for v in e.values])
+        elif isinstance(e, ast.DictComp) and len(e.generators) == 1 and not e.generators[0].ifs:
+            els = elements(e.generators[0].iter)
+            if els is None:
+                return None
+            keys, vals = [], []
+            for el in els:
+                b = bind(e.generators[0].target, el)
+                if b is None:
+                    return None
+                keys.append(fold(_Subst(b, {}).visit(copy.deepcopy(e.key)), tables, module))
+                vals.append(fold(_Subst(b, {}).visit(copy.deepcopy(e.value)), tables, module))
+            d = ast.Dict(keys=keys, values=vals)
+        else:
+            return None
+        return d if all(isinstance(k, ast.Constant) for k in d.keys) else None
+
+    def merge(d, more):
+        for k, v in zip(more.keys, more.values):
+            for i, k0 in enumerate(d.keys):
+                if k0.value == k.value:
+                    d.values[i] = v
+                    break
+            else:
+                d.keys.append(k)
+                d.values.append(v)
+    for m in prog.modules.values():
+        tables, generated = {}, set()
+        body = []
+        for st in m.tree.body:
+            if isinstance(st, ast.Assign) and len(st.targets) == 1 and isinstance(st.targets[0], ast.Name) and isinstance(st.value, (ast.Dict, ast.DictComp)):
+                d = as_display(st.value, tables, m)
+                if d is not None:
+                    name = st.targets[0].id
+                    if isinstance(st.value, ast.DictComp):
+                        generated.add(name)
+                        st.value = ast.fix_missing_locations(ast.copy_location(d, st.value))
+                        tables[name] = st.value
+                    else:
+                        tables[name] = d if not all(isinstance(k, ast.Constant) for k in st.value.keys) else st.value
+                body.append(st)
+                continue
+            if isinstance(st, ast.Expr) and isinstance(st.value, ast.Call) and isinstance(st.value.func, ast.Attribute) and st.value.func.attr == 'update' \
+                    and isinstance(st.value.func.value, ast.Name) and st.value.func.value.id in tables and len(st.value.args) == 1 and not st.value.keywords:
+                name = st.value.func.value.id
+                more = as_display(st.value.args[0], tables, m)
+                if more is not None:
+                    merge(tables[name], more)
+                    generated.add(name)
+                    ast.fix_missing_locations(tables[name])
+                    continue
+            if isinstance(st, ast.Assign) and len(st.targets) == 1 and isinstance(st.targets[0], ast.Subscript) and isinstance(st.targets[0].value, ast.Name) \
+                    and st.targets[0].value.id in tables:
+                k = fold(copy.deepcopy(st.targets[0].slice), tables, m)
+                if isinstance(k, ast.Constant):
+                    merge(tables[st.targets[0].value.id], ast.Dict(keys=[k], values=[fold(copy.deepcopy(st.value), tables, m)]))
+                    generated.add(st.targets[0].value.id)
+                    ast.fix_missing_locations(tables[st.targets[0].value.id])
+                    continue
+            # anything else that names a table ends what can be said about it
+            for x in ast.walk(st) if not isinstance(st, (ast.FunctionDef, ast.ClassDef)) else []:
+                if isinstance(x, ast.Name) and x.id in tables and isinstance(x.ctx, ast.Store):
+                    tables.pop(x.id, None)
+            body.append(st)
+        if generated:
+            m.tree.body = body
+            done += ['%s.%s' % (m.name, n) for n in sorted(generated)]
+    return done
+
+
+def _written_names(prog):
+    """names / attribute names through which something is written at run time: `X[k] = v`, `obj.X[k] = v`, `X.append(..)`, `obj.X.update(..)`,
+    `X += ..` - a table that is written is state, not a constant"""
+    out = set()
+    muts = {'append', 'extend', 'insert', 'remove', 'pop', 'clear', 'update', 'add', 'discard', 'setdefault', 'popitem', 'sort', 'reverse'}
+
+    def name_of(e):
+        return e.id if isinstance(e, ast.Name) else e.attr if isinstance(e, ast.Attribute) else None
+    for m in prog.modules.values():
+        for x in ast.walk(m.tree):
+            if isinstance(x, ast.Subscript) and isinstance(x.ctx, (ast.Store, ast.Del)):
+                out.add(name_of(x.value))
+            elif isinstance(x, ast.Call) and isinstance(x.func, ast.Attribute) and x.func.attr in muts:
+                out.add(name_of(x.func.value))
+            elif isinstance(x, ast.AugAssign):
+                out.add(name_of(x.target))
+    out.discard(None)
+    return out
+
+
 def inline_new_constants(prog, known):
     """module-level and class-level names that are not in the reference tree and are bound once to a constant display are
     replaced by that display wherever they are read (so `_HEADER_FORMAT = '>8s8s4B2L'` ... `unpack_from(_HEADER_FORMAT, data)`
     is again `unpack_from('>8s8s4B2L', data)`).  Returns the list of inlined names."""
     done = []
     _unroll_constant_comprehensions(prog, known)
+    written_through = _written_names(prog)
     # ---- module level
     for m in prog.modules.values():
         cands = {}
@@ -2120,7 +2299,7 @@ def inline_new_constants(prog, known):
             if isinstance(st, ast.Assign) and len(st.targets) == 1 and isinstance(st.targets[0], ast.Name) and _display(st.value):
                 name = st.targets[0].id
                 q = '%s.%s' % (m.name, name)
-                if q not in known and not name.startswith('__'):
+                if q not in known and not name.startswith('__') and name not in written_through:
                     cands[name] = st
         # assigned once only, never stored elsewhere
         for name in list(cands):
@@ -2187,7 +2366,8 @@ def inline_new_constants(prog, known):
         for st in c.node.body:
             if isinstance(st, ast.Assign) and len(st.targets) == 1 and isinstance(st.targets[0], ast.Name) and _display(st.value):
                 name = st.targets[0].id
-                if '%s.%s' % (c.qual, name) not in known and not name.startswith('__') and name not in ('_fields_', '_pack_'):
+                if '%s.%s' % (c.qual, name) not in known and not name.startswith('__') and name not in ('_fields_', '_pack_') \
+                        and name not in written_through:
                     cands[name] = st
         for name in list(cands):
             others = [k for k in prog.classes.values() if k is not c and name in k.attrs and (c in k.mro() or k in c.mro())]
@@ -2624,6 +2804,9 @@ class Inliner:
                 k = unroll_literal_loops(fi.node)
                 if k:
                     self.report.setdefault('unrolled_literal_loops', {})[q] = k
+        self.report['generated_tables'] = fold_generated_tables(prog)
+        if self.report['generated_tables']:
+            prog.reindex()
         self.report['erased_records'] = erase_new_records(prog, known_constants(), tbl.get('attr_reads'))
         if self.report['erased_records']:
             prog.reindex()
